@@ -8,7 +8,7 @@ ID = 'C11'
 COQ_MODEL = 'model.Router'
 COQ_CORR = 'corr_C11'
 N_QUICK = 230
-N_THOROUGH = 2500
+N_THOROUGH = 1200
 THOROUGH_EXHAUSTIVE = False
 VM_CASES = 12
 RULE = ('case = a fresh application and a history of 4..30 operations over a 13-rule / 7-hook / 3-name universe with '
@@ -19,7 +19,7 @@ RULE = ('case = a fresh application and a history of 4..30 operations over a 13-
         'Ombott.__call__ incl. hooks fired, router[name], router[{rule}], the routes/named_routes/hooks listings) is '
         'compared with the model and — by the oracle — with a fresh real router rebuilt from the surviving indexes. '
         'A separate stream contains inadmissible histories (prefix removal over a hook) for the model tie only. thorough: '
-        'all histories to depth 4 over an 8-operation alphabet + longer random ones. non-trivial = the history contains a '
+        'all histories to depth 3 over an 8-operation alphabet + longer random ones. non-trivial = the history contains a '
         'removal that prunes or merges nodes followed by a successful lookup, and a hook fired; distinct by history')
 TRUSTED = ['section variable filt (as C01); modelled, not verified: Python dict insertion order (association lists), '
            'object identity of Route / hook-list objects (heap of route ids; one shared hook pair per pattern)',
@@ -158,7 +158,7 @@ def thorough():
     alpha = [A('/a/b/c', 1), A('/a/b', 2, name='n1'), A('/a/<x>', 3), dict(op='remove', rule='/a/b/c'),
              dict(op='remove', rule='/a/b'), dict(op='add_hook', rule='/a/b', h=50), dict(op='remove_hook', rule='/a/b'),
              dict(op='remove', rule='/a/*')]
-    for k in (1, 2, 3, 4):
+    for k in (1, 2, 3):
         for ops in itertools.product(alpha, repeat=k):
             # keep it admissible: no prefix removal while the hook /a/b may be installed
             inst = False
@@ -371,13 +371,22 @@ def _star_rule_removed_by_name(case, what, m):
 PREDICATES = {'star_rule_removed_by_name': _star_rule_removed_by_name}
 
 MANIFEST = dict(
-    text=('Proof (Coq): see coq/props/C11.v for the exact theorems and which are _partial. The model (coq/model/Router.v: '
-          'remove with upward pruning, _try_merge, hook slots, the three indexes, _add\'s order of effects) is tied to '
-          '/repo on every run by the differential correspondence after EVERY operation of generated histories, and the '
-          'oracle compares the edited router with a fresh real router rebuilt from the surviving indexes and checks the '
-          'hooks fired against the hook index directly.'),
-    note=('Trusted: Coq kernel + vm_compute; extraction; the harness; filt as a section variable. Admissible histories '
-          'only (prefix removal is specified for routes only).'),
-    technique='Coq proof (invariant over edit histories) + correspondence + fresh-router oracle',
+    text=('Proof (Coq, closed under the global context, for ALL histories without a depth bound): C11_remove_exact_effect '
+          '(RadiDict.remove in exact / prefix "*" / hooks-only mode, with upward pruning and _try_merge, keeps the tree '
+          'well-formed and removes exactly the entries named by the pattern); C11_hook_install_keeps_routes; '
+          'C11_history_tree_matches_index (after any sequence of add / overwrite / rejected add / remove by rule, name, '
+          'prefix / add hook / remove hook / remove_method the tree holds exactly the routes the routes index lists); '
+          'C11_history_eq_fresh_partial (hence every path resolves as the rule-by-rule spec on the surviving index — the same '
+          'equation C01 proves for a freshly built router). PARTIAL: the hook list of a lookup (C11_hooks_fire_exactly) and the '
+          'literal rebuilt-router equality incl. by-name/by-rule/listing (C11_history_eq_fresh) are NOT proved; their full '
+          'statements are kept in coq/props/C11.v. They are covered by the model/implementation correspondence after EVERY '
+          'operation of generated histories and by the oracle, which rebuilds a fresh real router from the surviving '
+          'indexes after every operation and compares resolve (direct and through Ombott.__call__, hooks fired), '
+          'router[name], router[{rule}] and the listings, and checks the hooks fired against the hooks index directly.'),
+    note=('Trusted: Coq kernel + vm_compute; extraction; the harness; filt as a section variable. The model is faithful to '
+          'the code with fixes F14, F15 and F33 (found while building this check). Admissible histories for the oracle: '
+          'prefix removal only when no hook lies under the removed prefix (the property restricts it to routes); the '
+          'proved theorems need no such restriction because they speak about routes only.'),
+    technique='Coq proof (invariant over edit histories, induction on the tree) + correspondence + fresh-router oracle',
     design_ref='DESIGN.md section 4, C11; Appendix A.4',
 )
